@@ -196,7 +196,11 @@ func vfOpen(arr int, rk uint64, parA, parB refobfs3.Params, wireCap [2]int, fata
 }
 
 func vfOpenForced(arr int, rk uint64, parA, parB refobfs3.Params, wireCap [2]int, force [2][2]int, fatal func(string)) *vfSess {
-	s := &vfSess{n: wire.New(), arr: arr, rk: rk, fatal: fatal}
+	s := &vfSess{n: wire.New(), arr: arr, rk: rk}
+	s.fatal = func(msg string) {
+		s.close() // restore the global random source before the test function is left
+		fatal(msg)
+	}
 	s.ends = [2]*vfEnd{
 		{side: wire.A, real: arr != vfArrRealServer, par: parA, splits: map[int]bool{}},
 		{side: wire.B, real: arr != vfArrRealClient, par: parB, splits: map[int]bool{}},
